@@ -462,7 +462,7 @@ def norm(string, chars=None):
 
 
 @specs.parameter('string', yaqltypes.String(nullable=True))
-@specs.parameter('trim_spaces', bool, alias='trim')
+@specs.parameter('trim_spaces', bool)
 @specs.parameter('chars', yaqltypes.String(nullable=True))
 @specs.extension_method
 def is_empty(string, trim_spaces=True, chars=None):
